@@ -672,6 +672,18 @@ func runServerScenario(t *testing.T, rec *recorder, cfg *sysCfg, seed uint64, sc
 			sp.shut, sp.peerRead, sp.consume, sp.reply, sp.earlyFin = "fin", "stall", "all", "big", true
 			sp.closeAt, sp.openOut, sp.wakes, sp.asyncW, sp.budget = -1, -1, 0, 0, 1<<20
 		}
+		if !cfg.v6zone && i == 5 && cfg.conns >= 7 {
+			// a reader that leaves 100 bytes behind in every callback while 40 segments arrive one by one: its
+			// leftover goes round the ring buffer (see the "wrap" policy)
+			sp := specs[i]
+			sp.total = 40 * 290
+			sp.segs = make([]int, 40)
+			for j := range sp.segs {
+				sp.segs[j] = 290
+			}
+			sp.lockstep, sp.consume, sp.reply, sp.shut = true, "wrap", "none", "fin"
+			sp.closeAt, sp.openOut, sp.asyncW, sp.wakes, sp.peerRead = -1, -1, 0, 0, "normal"
+		}
 		if cfg.v6zone && i == 0 {
 			// first wave: a connection that ends with an unfinished stream sitting in its inbound buffer (the peer
 			// stops half way and closes, the handler only peeks): its pooled ring goes back with bytes in it
